@@ -1,6 +1,6 @@
 (* The case interpreter of the correspondence check: one text line in, one canonical text line out.
    The Rust harness (`impldrv`) implements the same protocol on top of the real library. No proofs here. *)
-Require Import SD.Base SD.Text SD.Codes SD.Header SD.Name SD.RData SD.Packet SD.PktText SD.TextApi.
+Require Import SD.Base SD.Text SD.Codes SD.Header SD.Name SD.RData SD.Packet SD.PktText SD.TextApi SD.Store.
 From Coq Require Import String.
 Open Scope N_scope.
 
@@ -351,6 +351,175 @@ Definition run_escape (args : list (list byte)) : list byte :=
   | _ => s2b "BADCASE"
   end.
 
+(* ---- mDNS store / reply / discovery cases (C13 C14 C15 C20) ----
+   STORE op...   with op := AA rr | AC rr | RM rr | CL | T n | Q name filter | R PKT... | I service full PKT... | K service
+   Every Q / R / K appends one " | ..." group to the output; unordered results are sorted. *)
+Fixpoint insert_tok (a : list byte) (l : list (list byte)) : list (list byte) :=
+  match l with [] => [a] | x :: r => if bytes_leb x a then x :: insert_tok a r else a :: l end.
+Definition sort_toks (l : list (list byte)) : list (list byte) := fold_right insert_tok [] l.
+Definition rrs_tok (l : list rr) : list byte :=
+  unwords (nat_tok (List.length l) :: sort_toks (map (fun r => unwords (rr_toks r)) l)).
+Definition groups_tok (g : list (list rr)) : list byte :=
+  unwords (nat_tok (List.length g) :: sort_toks (map rrs_tok g)).
+Definition ip_tok (ip : bool * N) : list byte := (if fst ip then s2b "6:" else s2b "4:") ++ N_to_hex (snd ip).
+Definition instance_tok (i : instance) : list byte :=
+  unwords [bytes_to_hex (i_name i);
+           unwords (nat_tok (List.length (i_ips i)) :: sort_toks (map ip_tok (i_ips i)));
+           unwords (nat_tok (List.length (i_ports i)) :: sort_toks (map N_to_hex (i_ports i)));
+           attrs_tok (i_attrs i)].
+Definition instances_tok (l : list instance) : list byte :=
+  unwords (nat_tok (List.length l) :: sort_toks (map instance_tok l)).
+Definition dedup_toks (l : list (list byte)) : list (list byte) :=
+  fold_right (fun x acc => if existsb (bytes_eqb x) acc then acc else x :: acc) [] l.
+
+Definition filter_of (n : N) : dfilter :=
+  match n with 0 => filter_authoritative false | 1 => filter_authoritative true | 2 => filter_cached | _ => filter_all end.
+
+Fixpoint run_store_ops (fuel : nat) (ts : list (list byte)) (st : store) (now : N) (out : list byte) : list byte :=
+  match fuel with
+  | O => out ++ s2b " | FUEL"
+  | S f =>
+    match ts with
+    | [] => out
+    | op :: rest =>
+      if tok_eqb op "AA" then match r_rr rest with Some (r, t) => run_store_ops f t (add_authoritative st r) now out | None => s2b "BADCASE" end
+      else if tok_eqb op "AC" then match r_rr rest with Some (r, t) => run_store_ops f t (add_cached st r now) now out | None => s2b "BADCASE" end
+      else if tok_eqb op "RM" then match r_rr rest with Some (r, t) => run_store_ops f t (remove_record st r) now out | None => s2b "BADCASE" end
+      else if tok_eqb op "CL" then run_store_ops f rest clear_store now out
+      else if tok_eqb op "T" then match r_N rest with Some (n, t) => run_store_ops f t st (now + n) out | None => s2b "BADCASE" end
+      else if tok_eqb op "Q" then
+        match r_name rest with
+        | Some (n, t1) => match r_N t1 with
+                          | Some (fl, t2) => run_store_ops f t2 st now (out ++ s2b " | Q " ++ groups_tok (query st n (filter_of fl) now))
+                          | None => s2b "BADCASE" end
+        | None => s2b "BADCASE" end
+      else if tok_eqb op "R" then
+        match r_packet rest with
+        | Some (p, t) =>
+          let o := match build_reply st p now with
+                   | None => s2b "NONE"
+                   | Some r =>
+                     unwords [N_to_hex (rp_id r); bool_tok (rp_response r); bool_tok (rp_unicast r); rrs_tok (rp_answers r);
+                              rrs_tok (rp_additional r);
+                              (* the compressed reply parses back to the same sections *)
+                              match write_packet_compressed (reply_packet r) with
+                              | Ok b => match parse_packet b with
+                                        | Ok q => unwords [s2b "P"; rrs_tok (ans q); rrs_tok (adds q)]
+                                        | _ => s2b "PARSEFAIL" end
+                              | _ => s2b "WRITEFAIL" end]
+                   end in
+          run_store_ops f t st now (out ++ s2b " | R " ++ o)
+        | None => s2b "BADCASE" end
+      else if tok_eqb op "I" then
+        match r_name rest with
+        | Some (svc, t1) =>
+          match r_name t1 with
+          | Some (full, t2) =>
+            match r_packet t2 with
+            | Some (p, t3) =>
+              let sent := match ingest_filter svc full p with
+                          | [] => s2b "0"
+                          | l => instances_tok (match from_records svc l with Some i => [i] | None => [] end) end in
+              run_store_ops f t3 (ingest st svc full p now) now (out ++ s2b " | I " ++ sent)
+            | None => s2b "BADCASE" end
+          | None => s2b "BADCASE" end
+        | None => s2b "BADCASE" end
+      else if tok_eqb op "K" then
+        match r_name rest with
+        | Some (svc, t) =>
+          run_store_ops f t st now (out ++ s2b " | K " ++
+             unwords (let l := dedup_toks (map instance_tok (known_services st svc now)) in nat_tok (List.length l) :: sort_toks l))
+        | None => s2b "BADCASE" end
+      else s2b "BADCASE"
+    end
+  end.
+Definition run_store (args : list (list byte)) : list byte := run_store_ops (S (List.length args)) args [] 0 (s2b "OK").
+
+(* HISTB h1 ;; h2 ;; ...: independent histories; outputs joined by " ;; " *)
+Fixpoint split_hists (ts cur : list (list byte)) : list (list (list byte)) :=
+  match ts with
+  | [] => [rev cur]
+  | t :: r => if tok_eqb t ";;" then rev cur :: split_hists r [] else split_hists r (t :: cur)
+  end.
+Fixpoint join_hists (l : list (list byte)) : list byte :=
+  match l with [] => [] | [x] => x | x :: r => x ++ s2b " ;; " ++ join_hists r end.
+Definition run_histb (args : list (list byte)) : list byte := join_hists (map run_store (split_hists args [])).
+
+(* DISC svc me ttl n peer...   peer := svc inst nips {4|6 addr}.. nports port.. attrs
+   A discoverer watching `svc` under its own instance name `me` receives, one compressed packet per peer, the records
+   each peer's InstanceInformation::into_records produces; output: what each packet sent to the discovery channel, then
+   get_known_services. *)
+Definition r_ip : reader (bool * N) :=
+  fun ts => match ts with
+            | k :: r => match r_N r with
+                        | Some (a, r') => if tok_eqb k "6" then Some ((true, a), r') else if tok_eqb k "4" then Some ((false, a), r') else None
+                        | None => None end
+            | [] => None end.
+Record peer := { p_svc : list byte; p_inst : list byte; p_ips : list (bool * N); p_ports : list N; p_attrs : list attr }.
+Definition r_peer : reader peer :=
+  fun ts => match r_bytes ts with
+            | Some (svc, t1) =>
+              match r_bytes t1 with
+              | Some (inst, t2) =>
+                match r_counted r_ip t2 with
+                | Some (ips, t3) =>
+                  match r_counted r_N t3 with
+                  | Some (ports, t4) =>
+                    match r_counted r_attr t4 with
+                    | Some (attrs, t5) => Some ({| p_svc := svc; p_inst := inst; p_ips := ips; p_ports := ports; p_attrs := attrs |}, t5)
+                    | None => None end
+                  | None => None end
+                | None => None end
+              | None => None end
+            | None => None end.
+Definition full_name_of (inst svc : list byte) : outcome (list label) := name_new (escape_name inst ++ DOT :: svc).
+Definition announce_bytes (p : peer) (ttl : N) : outcome (list byte) :=
+  match full_name_of (p_inst p) (p_svc p) with
+  | Ok full =>
+    match into_records {| i_name := p_inst p; i_ips := p_ips p; i_ports := p_ports p; i_attrs := p_attrs p |} full ttl with
+    | Ok recs => write_packet_compressed {| hdr := new_reply 1 StandardQuery; popt := None; qs := []; ans := recs; nss := []; adds := [] |}
+    | Err e => Err e | Panic s => Panic s | OutOfFuel => OutOfFuel
+    end
+  | Err e => Err e | Panic s => Panic s | OutOfFuel => OutOfFuel
+  end.
+Fixpoint disc_loop (peers : list peer) (svc me : list label) (ttl : N) (st : store) (out : list byte) : list byte :=
+  match peers with
+  | [] => out ++ s2b " | K " ++ unwords (let l := dedup_toks (map instance_tok (known_services st svc 1)) in nat_tok (List.length l) :: sort_toks l)
+  | p :: r =>
+    match announce_bytes p ttl with
+    | Ok b =>
+      match parse_packet b with
+      | Ok pk =>
+        let sent := match ingest_filter svc me pk with
+                    | [] => s2b "0"
+                    | l => instances_tok (match from_records svc l with Some i => [i] | None => [] end) end in
+        disc_loop r svc me ttl (ingest st svc me pk 0) (out ++ s2b " | I " ++ sent)
+      | _ => disc_loop r svc me ttl st (out ++ s2b " | PARSEFAIL")
+      end
+    | _ => disc_loop r svc me ttl st (out ++ s2b " | E")
+    end
+  end.
+Definition run_disc (args : list (list byte)) : list byte :=
+  match r_bytes args with
+  | Some (svc_t, t1) =>
+    match r_bytes t1 with
+    | Some (me_t, t2) =>
+      match r_N t2 with
+      | Some (ttl, t3) =>
+        match r_counted r_peer t3 with
+        | Some (peers, []) =>
+          match name_new svc_t, full_name_of me_t svc_t with
+          | Ok svc, Ok me =>
+            let st0 := add_authoritative [] {| rname := svc; rclass := IN; rttl := ttl; rcf := false; rdata_of := RD M_PTR [V_name me] |} in
+            disc_loop peers svc me ttl st0 (s2b "OK")
+          | _, _ => s2b "ERR"
+          end
+        | _ => s2b "BADCASE" end
+      | None => s2b "BADCASE" end
+    | None => s2b "BADCASE" end
+  | None => s2b "BADCASE"
+  end.
+
 Definition run_line (line : list byte) : list byte :=
   match tokens line with
   | [] => []
@@ -367,6 +536,9 @@ Definition run_line (line : list byte) : list byte :=
     else if tok_eqb cmd "BUILD" then run_build args
     else if tok_eqb cmd "RT" then run_rt args
     else if tok_eqb cmd "NAMENEW" then run_namenew args
+    else if tok_eqb cmd "STORE" then run_store args
+    else if tok_eqb cmd "DISC" then run_disc args
+    else if tok_eqb cmd "HISTB" then run_histb args
     else if tok_eqb cmd "SUFFIX" then run_suffix args
     else if tok_eqb cmd "CSTRNEW" then run_cstrnew args
     else if tok_eqb cmd "TXTTEXT" then run_txttext args
